@@ -221,3 +221,19 @@ Lemma reload_burial event_height best :
   reload_funding_spend_buried event_height best = true <->
   best >= confirmation_threshold event_height OnchainEventKind_Other 0 None.
 Proof. unfold reload_funding_spend_buried, confirmation_threshold. lia. Qed.
+
+(** Holding-cell timeout (channel.rs do_best_block_updated): a queued add is dropped and failed back
+    exactly when the forward-time check would refuse it as OutgoingCLTVTooSoon -- the two predicates
+    mirror each other, as the code comment requires. *)
+Lemma holding_cell_mirrors_forward_check out h :
+  holding_cell_htlc_timed_out out (holding_cell_cltv_limit h) = true <->
+  out <= h + LATENCY_GRACE_PERIOD_BLOCKS.
+Proof. unfold holding_cell_htlc_timed_out, holding_cell_cltv_limit. lia. Qed.
+
+Lemma holding_cell_consistent_with_forward h out inn d :
+  check_incoming_htlc_cltv h out inn d = ROk tt ->
+  holding_cell_htlc_timed_out out (holding_cell_cltv_limit h) = false.
+Proof.
+  intros H. apply fwd_ok_iff in H.
+  unfold holding_cell_htlc_timed_out, holding_cell_cltv_limit. lia.
+Qed.
